@@ -1,4 +1,5 @@
 use crate::*;
+use crate::serialization::utils::check_len;
 
 impl cbor_event::se::Serialize for TransactionInput {
     fn serialize<'se, W: Write>(
@@ -16,6 +17,7 @@ impl Deserialize for TransactionInput {
     fn deserialize<R: BufRead + Seek>(raw: &mut Deserializer<R>) -> Result<Self, DeserializeError> {
         (|| -> Result<_, DeserializeError> {
             let len = raw.array()?;
+            check_len(len, 2, "(transaction_id, index)")?;
             let ret = Self::deserialize_as_embedded_group(raw, len);
             match len {
                 cbor_event::Len::Len(_) =>
